@@ -146,6 +146,13 @@ var histProgs = []string{
 	"let t=[3,1,2].number((j,y)->[j,y]); numbers(3).number((i,x)->t[i][1]+x)[a%3]+t[b%3][0]",
 	"let t=numbers(4).combine3((p,q,r)->p+q+r); let u=numbers(5).number((i,x)->i*x); numbers(3).fsm((s,x)->goto((s.state+u[x]+t[x%2])%3)).map(s->s.state)[a%3]",
 	"let t=numbers(5).compact((p,q)->p=q).number((i,x)->x*x); if a%2=0 then src.number((i,x)->t[i%5]+x)[0] else t[b%5]",
+	// long chains of one operation on a constant map or list, with a length that depends on the arguments
+	// (representations that reorganise themselves at some depth or size)
+	"numbers(a%17+2).mapReduce({sum:0,cnt:0,tag:7}, (m,i)->m.replace(mm->{sum:mm.sum+i, cnt:mm.cnt+1})).string()",
+	"let base={p:1,q:2}; numbers(a%16+b+3).mapReduce(base, (m,i)->m.replace(mm->{p:mm.p+i})).p*1000+base.p",
+	"let base={p:1,q:2}; numbers(a%16+3).mapReduce(base, (m,i)->m.put(\"k\"+i, i)).size()*1000+base.size()+numbers(a%13+b).mapReduce(base, (m,i)->m+{z:i}).z",
+	"let base=[1,2,3]; numbers(a%20+2).mapReduce(base, (l,i)->l.append(i)).size()*1000+base.size()+numbers(a%12+1).mapReduce(base, (l,i)->l.set(0,i))[0]",
+	"func deep(m,n) if n=0 then m else deep(m.replace(x->{c:x.c+n}), n-1); deep({c:0,d:1}, a%15+b).c",
 	// comparison of a constant lazy list with an argument-dependent list that fails somewhere: the outcome
 	// must not depend on whether the constant has been materialised by an earlier evaluation
 	"let k=numbers(3).map(i->i+1); k = src.map(e->if e=b then e.nokey else e*2)",
